@@ -152,7 +152,7 @@ int hx_seg_main(int argc, char **argv) {
     for (size_t ci = 0; ci < b.ncases; ci++) {
         hx_case *base = &b.cases[ci];
         if (ci < start_case) continue;
-        base->cfg[CF_DUMP] = HX_DUMP_TX | HX_DUMP_EVENTS;
+        base->cfg[CF_DUMP] = HX_DUMP_TX | HX_DUMP_EVENTS | HX_DUMP_SEG;
         hx_result br;
         char *bd = strdup(run_dump(base, &br));
         if (br.nviol) {
